@@ -87,3 +87,43 @@ package sync
 //@   loop 0 invariant fromBlock <= 9223372036854775808
 //@   loop 0 invariant !scanGap
 //@   loop 0 invariant fromBlock <= scanNext
+
+// ---- the driver's hand-over of one downloaded block (C05, C06): a block that is not finalized is registered with the
+// reorg detector before it is processed; the store's ProcessBlock is repeated until it succeeds once (never twice),
+// unless the store reports an inconsistent state (then the download is cancelled) or the context ends. A reorg is
+// answered by rewinding the store to the reported block and only then acknowledging it.
+//@ ghost var trackedNum int
+//@ ghost var trackedOK bool
+//@ ghost var processedOK int
+//@ ghost var lastProcessedNum int
+//@ ghost var reorgedOK int
+//@ ghost var lastReorgFrom int
+//@ interface github.com/agglayer/aggkit/sync.ReorgDetector.AddBlockToTrack (self, ctx, id, blockNum, blockHash)
+//@   modifies trackedNum, trackedOK
+//@   ensures result == nil ==> trackedOK && trackedNum == blockNum
+//@   ensures result != nil ==> trackedOK == old(trackedOK) && trackedNum == old(trackedNum)
+//@ interface github.com/agglayer/aggkit/sync.processorInterface.ProcessBlock (self, ctx, block)
+//@   modifies processedOK, lastProcessedNum
+//@   ensures result == nil ==> processedOK == old(processedOK) + 1 && lastProcessedNum == block.Num
+//@   ensures result != nil ==> processedOK == old(processedOK) && lastProcessedNum == old(lastProcessedNum)
+//@ interface github.com/agglayer/aggkit/sync.processorInterface.Reorg (self, ctx, firstReorgedBlock)
+//@   modifies reorgedOK, lastReorgFrom
+//@   ensures result == nil ==> reorgedOK == old(reorgedOK) + 1 && lastReorgFrom == firstReorgedBlock
+//@   ensures result != nil ==> reorgedOK == old(reorgedOK) && lastReorgFrom == old(lastReorgFrom)
+
+//@ func (d *EVMDriver) handleNewBlock
+//@   props C05 C06
+//@   requires d != nil && d.log != nil && d.rh != nil && d.reorgDetector != nil && d.processor != nil
+//@   requires !trackedOK
+//@   modifies trackedNum, trackedOK, processedOK, lastProcessedNum
+//@   ensures[processed-at-most-once] processedOK == old(processedOK) || (processedOK == old(processedOK) + 1 && lastProcessedNum == b.Num)
+//@   ensures[tracked-before-processed] (processedOK == old(processedOK) + 1 && !b.IsFinalizedBlock) ==> trackedOK && trackedNum == b.Num
+//@   loop 0 invariant d != nil && d.log != nil && d.rh != nil && d.reorgDetector != nil && d.processor != nil && processedOK == old(processedOK) && !trackedOK && !succeed
+//@   loop 1 invariant d != nil && d.log != nil && d.rh != nil && d.processor != nil && (b.IsFinalizedBlock || (trackedOK && trackedNum == b.Num)) && !succeed && processedOK == old(processedOK)
+
+//@ func (d *EVMDriver) handleReorg
+//@   props C06
+//@   requires d != nil && d.log != nil && d.rh != nil && d.processor != nil && d.reorgSub != nil
+//@   modifies heap, reorgedOK, lastReorgFrom
+//@   ensures[rewound-exactly-once-to-the-reported-block-before-acknowledging] reorgedOK == old(reorgedOK) + 1 && lastReorgFrom == firstReorgedBlock
+//@   loop 0 invariant d != nil && d.log != nil && d.rh != nil && d.processor != nil && d.reorgSub != nil && reorgedOK == old(reorgedOK)
